@@ -447,13 +447,15 @@ class PipelineBuilder:
 
         self._edges[node] = {}
 
-    def validate(self):
+    def validate(self, edges: dict[str, dict[str, str]] | None = None):
         """
         Check the built pipeline for errors.
         """
+        if edges is None:
+            edges = self._edges
 
         # Check for cycles
-        graph = {n: set(w.values()) for (n, w) in self._edges.items()}
+        graph = {n: set(w.values()) for (n, w) in edges.items()}
         ts = TopologicalSorter(graph)
         try:
             ts.prepare()
@@ -520,8 +522,6 @@ class PipelineBuilder:
             inputs) cannot be serialized, and this method will fail if they
             are present in the pipeline.
         """
-        self.validate()
-
         meta = self.meta(include_hash=False)
         cfg = PipelineConfig(meta=meta)
 
@@ -534,6 +534,9 @@ class PipelineBuilder:
                 for iname in node.inputs.keys():
                     if iname not in c_ins and iname in self._default_connections:
                         c_ins[iname] = self._default_connections[iname]
+
+        # validate the wiring with the default connections applied
+        self.validate(edges)
 
         # Now we go over all named nodes and add them to the config:
         for node in self.nodes():
@@ -601,7 +604,7 @@ class PipelineBuilder:
                 not have a matching hash.
         """
         cfg = PipelineConfig.model_validate(config)
-        builder = cls()
+        builder = cls(name=cfg.meta.name, version=cfg.meta.version)
         for inpt in cfg.inputs:
             types: list[type[Any] | None] = []
             if inpt.types is not None:
